@@ -24,8 +24,8 @@ SCENARIOS = {
     24: "sprintf_s(\"%Lf x\") into 4 bytes", 25: "sprintf_s(\"%Le y\") into 4 bytes", 26: "sprintf_s(\"%La z\") into 4 bytes", 27: "sprintf_s(\"%a w\") into 4 bytes",
     28: "wcsnorm_s NFD of 130 precomposed characters into 140 elements (heap scratch, no space)",
     29: "wcsnorm_s NFD, 23 marks into 20 elements (no space)", 30: "wcsnorm_s NFC, 23 marks into 20 elements (no space)",
-    31: "wcsicmp_s, the second operand's fold does not fit", 32: "wcsicmp_s, the first operand's fold does not fit",
-    33: "wcsnatcasecmp_s, the second operand's fold does not fit", 34: "wcsnatcasecmp_s, the first operand's fold does not fit",
+    31: "wcsicmp_s, the second operand's fold (8 x U+FB03) outgrows its scratch string", 32: "wcsicmp_s, the first operand's fold outgrows its scratch string",
+    33: "wcsnaticmp_s, the second operand's fold outgrows its scratch string", 34: "wcsnaticmp_s, the first operand's fold outgrows its scratch string",
 }
 
 
